@@ -337,6 +337,12 @@ func kUnmarshal(args []string) (string, string) {
 	}
 	// C05: chunking independence and progress
 	for style := 1; style <= 3; style++ {
+		if fault && style == 3 {
+			// a read ERROR handed over together with the last bytes is sticky inside bufio.Reader and surfaces where the buffer
+			// runs dry, which may be earlier than where a separate (0, err) would have been met: either outcome is "a record or
+			// an error". Only for EOF is the way of delivery required to be invisible. (False alarm found by the thorough tier.)
+			continue
+		}
 		r2 := runUnmarshal(o, data, fault, style)
 		if r2.rec != nil {
 			r2.rec.Close()
